@@ -271,6 +271,8 @@ def oracle(prop, case, out):
             i, t = l[1], l[2]
             if i in evaluated.get(t, set()):
                 fails.append(("evaluated_twice", "node %d evaluated twice at %d" % (i, t)))
+            if evaluated.get(t) and i <= max(evaluated[t]):
+                fails.append(("scan_order", "node %d evaluated at %d after node %d: the scan went backwards" % (i, t, max(evaluated[t]))))
             evaluated.setdefault(t, set()).add(i)
             # C03 / C02: why is it evaluated?
             why = []
@@ -390,6 +392,7 @@ def oracle(prop, case, out):
 
 
 PROP_KINDS = {
+    "C01": {"evaluated_twice", "scan_order", "stale_read", "not_evaluated", "run_without_eval"},
     "C02": {"cycle_order", "cycle_window", "missed_wakeup", "missed_raw", "empty_cycle", "spurious_cycle", "spurious_cycle_abandoned"},
     "C03": {"spurious_eval", "spurious_eval_abandoned", "stale_read", "ran_not_ready", "run_without_eval", "run_index",
             "evaluated_twice", "not_evaluated", "not_run", "emit_value"},
